@@ -43,8 +43,8 @@ Clauses(e) == CASE e.op = "alloc" -> AllocClauses(e)
 
 TraceInit == l = 1 /\ owed = 0
 TraceNext == /\ l <= Len(Trace)
-             /\ Report(l, 0, Clauses(Trace[l]))
-             /\ owed' = owed + (IF Trace[l].op = "alloc" /\ ZeroOwed(Trace[l]) THEN 1 ELSE 0)
+             /\ Report(l, 0, IF IsPanic(Trace[l]) THEN PanicFail ELSE Clauses(Trace[l]))
+             /\ owed' = owed + (IF Trace[l].op = "alloc" THEN (IF ZeroOwed(Trace[l]) THEN 1 ELSE 0) ELSE 0)
              /\ l' = l + 1
 TraceSpec == TraceInit /\ [][TraceNext]_<<l, owed>>
 Finished == l = Len(Trace) + 1 => PrintT(<<"TRACE-CONSUMED", Len(Trace)>>) /\ PrintT(<<"NOTE", "zero_owed", owed>>)
